@@ -7,10 +7,13 @@ package asp
 // the real parse step, and serialises what they produce with the serialiser of verif_c16.go.
 
 import (
+	"encoding/json"
 	"fmt"
 	"os"
 	"path/filepath"
 	"sort"
+	"strings"
+	"sync"
 
 	"github.com/thought-machine/please/rules"
 	"github.com/thought-machine/please/src/core"
@@ -123,6 +126,122 @@ func VerifC17EvalPreloaded(preload []VerifC16File, builds []VerifC16File, concur
 	for i, s := range scopes {
 		if s != nil {
 			out[i].Final = verifGlobals(s)
+		}
+	}
+	return out, nil
+}
+
+// VerifC17CfgResult is what one BUILD file produced in VerifC17EvalCfg: the result of VerifC16Eval plus the typed
+// rendering (verifValue) of `s.config.Get(key, nil)` of the package's own scope for every requested key, immediately
+// after the package was interpreted (CfgAfter) and after every file of the run has finished (CfgFinal). A package that
+// raised has its scope's config rendered too (CfgFinal only), since what it did before raising stays in the interpreter.
+type VerifC17CfgResult struct {
+	VerifC16Result
+	CfgAfter json.RawMessage `json:"cfg_after,omitempty"`
+	CfgFinal json.RawMessage `json:"cfg_final,omitempty"`
+}
+
+func verifC17Config(c *pyConfig, keys []string) json.RawMessage {
+	var b strings.Builder
+	b.WriteByte('{')
+	for i, k := range keys {
+		if i > 0 {
+			b.WriteByte(',')
+		}
+		kb, _ := json.Marshal(k)
+		b.Write(kb)
+		b.WriteByte(':')
+		verifValue(&b, c.Get(k, nil), 0)
+	}
+	b.WriteByte('}')
+	return json.RawMessage(b.String())
+}
+
+// VerifC17EvalCfg is VerifC16Eval (one fresh parser, builtins loaded, subinclude("name") resolved to the Defs file of
+// that name and otherwise the real interpreter.Subinclude + scope.SetAll, BUILD files interpreted in order or by one
+// goroutine each) which additionally renders the CONFIG of every package scope for `keys`.
+func VerifC17EvalCfg(files []VerifC16File, keys []string, concurrent bool) (out []VerifC17CfgResult, err error) {
+	state := core.NewDefaultBuildState()
+	if state.Config.Parse.NumThreads < 4 {
+		state.Config.Parse.NumThreads = 4
+	}
+	p := NewParser(state)
+	src, err := rules.ReadAsset("builtins.build_defs")
+	if err != nil {
+		return nil, err
+	}
+	if err := p.LoadBuiltins("builtins.build_defs", src); err != nil {
+		return nil, err
+	}
+	dir, err := os.MkdirTemp("", "c17-hook-")
+	if err != nil {
+		return nil, err
+	}
+	defer os.RemoveAll(dir)
+	paths := map[string]string{}
+	var builds []VerifC16File
+	for _, f := range files {
+		if !f.Defs {
+			builds = append(builds, f)
+			continue
+		}
+		path := filepath.Join(dir, fmt.Sprintf("d%d.build_defs", len(paths)))
+		if err := os.WriteFile(path, []byte(f.Src), 0o644); err != nil {
+			return nil, err
+		}
+		paths[f.Name] = path
+	}
+	sub := p.interpreter.scope.Lookup("subinclude").(*pyFunc)
+	sub.nativeCode = func(s *scope, args []pyObject) pyObject {
+		for _, arg := range args {
+			name, ok := arg.(pyString)
+			s.Assert(ok, "cannot subinclude type %s", arg.Type())
+			path, present := paths[string(name)]
+			s.Assert(present, "verif: no such defs file %s", name)
+			// the same two calls as the real subinclude() builtin makes per output file
+			s.SetAll(s.interpreter.Subinclude(s, path, core.BuildLabel{PackageName: "defs", Name: strings.Trim(string(name), "/:")}, false), false)
+		}
+		return None
+	}
+	out = make([]VerifC17CfgResult, len(builds))
+	scopes := make([]*scope, len(builds))
+	run := func(i int) {
+		f := builds[i]
+		out[i].Name = f.Name
+		p.limiter.Acquire()
+		defer p.limiter.Release()
+		stmts, err := p.ParseData([]byte(f.Src), f.Name+"/BUILD")
+		if err != nil {
+			out[i].Err = "parse: " + verifShort(err)
+			return
+		}
+		s, err := p.interpreter.interpretAll(core.NewPackage(f.Name), nil, nil, 0, stmts)
+		scopes[i] = s
+		if err != nil {
+			out[i].Err = verifShort(err)
+			return
+		}
+		out[i].After = verifGlobals(s)
+		out[i].CfgAfter = verifC17Config(s.config, keys)
+	}
+	if concurrent {
+		var wg sync.WaitGroup
+		for i := range builds {
+			wg.Add(1)
+			go func() { defer wg.Done(); run(i) }()
+		}
+		wg.Wait()
+	} else {
+		for i := range builds {
+			run(i)
+		}
+	}
+	for i, s := range scopes {
+		if s != nil && s.config != nil {
+			if out[i].Err == "" {
+				out[i].Final = verifGlobals(s)
+			}
+			out[i].CfgFinal = verifC17Config(s.config, keys)
 		}
 	}
 	return out, nil
